@@ -411,6 +411,86 @@ pub fn full_queue_close_case(dir: &std::path::PathBuf, busy_from: u64, busy_to: 
     None
 }
 
+/// A peer that asks for a lot and then neither reads nor writes any more: the client's connection
+/// task ends up inside a socket write that cannot proceed, where no timer of its select loop runs.
+/// Such a connection delivers nothing at all, so it must be closed and forgotten within three
+/// intervals like any silent one. Real session (every piece owned), real accept path, loopback TCP;
+/// paused clock: after the peer's single write the test lets 400 virtual seconds pass.
+pub fn stuck_writer_case(dir: &std::path::PathBuf, requests: u32) -> Result<Option<(&'static str, String)>, String> {
+    use tokio::io::AsyncWriteExt;
+    core::wipe_dir(dir);
+    rdest::verif::clear_snapshots();
+    rdest::verif::set_choices(vec![]);
+    rdest::verif::set_net(None);
+    rdest::verif::publish_listen_addr(None);
+    let t = Torrent::new("t", 16384, &[("f", 16384 * 2)], true);
+    for i in 0..t.pieces.len() {
+        t.store_piece(dir, i);
+    }
+    let rt = tokio::runtime::Builder::new_current_thread().enable_all().start_paused(true).build().map_err(|e| e.to_string())?;
+    let local = tokio::task::LocalSet::new();
+    let meta = t.meta.clone();
+    // real time passes without the paused clock moving: this task stays runnable
+    async fn real_ms(ms: u64) {
+        let until = std::time::Instant::now() + std::time::Duration::from_millis(ms);
+        while std::time::Instant::now() < until {
+            tokio::task::yield_now().await;
+            std::thread::sleep(std::time::Duration::from_micros(200));
+        }
+    }
+    let res = local.block_on(&rt, async {
+        rdest::verif::set_http(Some(Box::new(move |_req: &reqwest::Request| crate::httpfake::respond(200, crate::fullworld::tracker_body(&[])))));
+        let mut session = rdest::Session::new(meta, *crate::world::OWN_ID);
+        for i in 0..2 {
+            session.verif_set_status(i, rdest::verif::Status::Have);
+        }
+        let session_task = tokio::task::spawn_local(async move { session.verif_run().await });
+        let mut addr = None;
+        for _ in 0..400 {
+            real_ms(5).await;
+            if let Some(a) = rdest::verif::listen_addr() {
+                addr = Some(a);
+                break;
+            }
+        }
+        let addr = addr.ok_or("the session never published its listening address".to_string())?;
+        let sock = tokio::net::TcpSocket::new_v4().map_err(|e| e.to_string())?;
+        let _ = sock.set_recv_buffer_size(16 * 1024);
+        let mut p = sock.connect(std::net::SocketAddr::from(([127, 0, 0, 1], addr.port()))).await.map_err(|e| format!("cannot dial the client: {}", e))?;
+        let local_addr = p.local_addr().map_err(|e| e.to_string())?.to_string();
+        let mut out = vec![];
+        for m in [refwire::handshake(t.meta.info_hash(), b"-HS0001-stuckwriter0"), Msg::Bitfield(vec![0x00]), Msg::Interested] {
+            out.extend(refwire::encode(&m));
+        }
+        for k in 0..requests {
+            out.extend(refwire::encode(&Msg::Request(k % 2, 0, 16384)));
+        }
+        p.write_all(&out).await.map_err(|e| e.to_string())?;
+        // the client works on it until its write cannot proceed (P never reads)
+        real_ms(1500).await;
+        let listed = |a: &str| rdest::verif::session_snapshot().map(|s| s.peers.iter().any(|x| x.addr == a)).unwrap_or(false);
+        if !listed(&local_addr) {
+            return Err(format!("the flooding peer {} is not registered with the manager after 1.5 s: {:?}", local_addr, rdest::verif::session_snapshot().map(|s| s.peers.iter().map(|p| p.addr.clone()).collect::<Vec<_>>())));
+        }
+        // silence: 400 virtual seconds (more than three keep-alive intervals)
+        tokio::time::sleep(std::time::Duration::from_secs(400)).await;
+        real_ms(300).await;
+        let still = listed(&local_addr);
+        let died = session_task.is_finished();
+        session_task.abort();
+        drop(p);
+        if died {
+            return Ok(Some(("manager-died", format!("{:?}", core::take_last_panic()))));
+        }
+        if still {
+            return Ok(Some(("silent-peer-not-dropped", format!("a peer sent {} requests in one go and then neither read nor wrote anything: 400 s later the manager still lists it (its connection task sits in a socket write, where neither the keep-alive timer nor anything else of its loop runs)", requests))));
+        }
+        Ok(None)
+    });
+    rdest::verif::set_http(None);
+    res
+}
+
 pub fn run(ctx: &Ctx) -> Outcome {
     let mut total = explore::Stats { exhaustive: true, ..Default::default() };
     let mut per = vec![];
@@ -444,10 +524,24 @@ pub fn run(ctx: &Ctx) -> Outcome {
         }
         per.push(json!({"scenario": "inactivity close while the manager's queue is full", "cases": rows}));
     }
+    // a peer that stops reading: the connection task sits in a socket write
+    {
+        let dir = core::private_cwd("c20", "stuck");
+        for requests in [0u32, 10, 3000] {
+            match stuck_writer_case(&dir, requests) {
+                Ok(None) => per.push(json!({"scenario": format!("peer sends {} requests, then neither reads nor writes (real socket, paused clock)", requests), "ok": true})),
+                Ok(Some((class, why))) => {
+                    per.push(json!({"scenario": format!("peer sends {} requests, then neither reads nor writes (real socket, paused clock)", requests), "violation": class}));
+                    ctx.violation(class, why, json!({"scenario": "stuck", "requests": requests, "history": []}));
+                }
+                Err(e) => ctx.machinery_error(format!("stuck-writer run ({} requests) could not be carried out: {}", requests, e)),
+            }
+        }
+    }
     let mut o = Outcome::new("model_checking");
     explore::stats_outcome(&total, &mut o);
     o.set("scenarios", Value::Array(per));
-    o.set("rule", json!("each 120 s keep-alive interval is cut at the listed slot offsets; an event = advance the paused clock to the next slot, then feed one symbol of the alphabet (or nothing); BFS over all scripts for the stated number of intervals; states are merged when manager snapshot, connection-task snapshot (keep-alive counter, flags, reservation, byte counters), slot number and the monitor's summary agree, so the number of timed scripts covered (symbols^slots) is far larger than the number of states. duo-* scenarios: two connections asked for the same pieces (end game); A sends at most keep-alives, B answers its outstanding request (completing a piece, which cancels and re-assigns A) or sends another live message, at two slots per interval; A must be gone 360 s after its last live message whatever B does. Plus five scripted cases in which the manager is busy with a FULL command queue (64 statistics reports of a manager-only peer) around a keep-alive tick of a silent connection that holds a reservation (355..365 s, 359..361 s, 350..420 s, 235..245 s, 115..125 s): once the manager is back the connection must be closed, forgotten and its piece released."));
+    o.set("rule", json!("each 120 s keep-alive interval is cut at the listed slot offsets; an event = advance the paused clock to the next slot, then feed one symbol of the alphabet (or nothing); BFS over all scripts for the stated number of intervals; states are merged when manager snapshot, connection-task snapshot (keep-alive counter, flags, reservation, byte counters), slot number and the monitor's summary agree, so the number of timed scripts covered (symbols^slots) is far larger than the number of states. duo-* scenarios: two connections asked for the same pieces (end game); A sends at most keep-alives, B answers its outstanding request (completing a piece, which cancels and re-assigns A) or sends another live message, at two slots per interval; A must be gone 360 s after its last live message whatever B does. Plus five scripted cases in which the manager is busy with a FULL command queue (64 statistics reports of a manager-only peer) around a keep-alive tick of a silent connection that holds a reservation (355..365 s, 359..361 s, 350..420 s, 235..245 s, 115..125 s): once the manager is back the connection must be closed, forgotten and its piece released. Plus one real-socket run under the paused clock: a peer dials the real listener of a session that owns every piece, sends handshake, bitfield, interest and 0 / 10 / 3000 requests in one write and then neither reads nor writes; 400 virtual seconds later it must be gone from the manager's records."));
     o.assume("the connection holds a reservation (handshake, bitfield, unchoke are fed at t=0) except in the -nohs scenarios, where the peer is silent from the start or handshakes at some slot (outgoing and incoming connections); messages arrive at slot times only, i.e. at fixed offsets from the 120 s timer; slots at +1 s and +119 s probe both sides of each tick");
     o.assume("merging states by (real state, slot, which interval the last live message fell into) is sound for the oracle because (a)-(c) only read those");
     o
@@ -455,6 +549,23 @@ pub fn run(ctx: &Ctx) -> Outcome {
 
 pub fn replay(_ctx: &Ctx, r: &Value) -> i32 {
     let name = r["scenario"].as_str().unwrap();
+    if name == "stuck" {
+        let dir = core::private_cwd("c20", "replay");
+        return match stuck_writer_case(&dir, r["requests"].as_u64().unwrap_or(3000) as u32) {
+            Ok(Some((class, why))) => {
+                println!("VIOLATION property=C20 replay=<this file>\n  class={} {}", class, why);
+                1
+            }
+            Ok(None) => {
+                println!("holds for this run");
+                0
+            }
+            Err(e) => {
+                eprintln!("could not be carried out: {}", e);
+                2
+            }
+        };
+    }
     if name == "fullq" {
         let dir = core::private_cwd("c20", "replay");
         return match full_queue_close_case(&dir, r["from"].as_u64().unwrap(), r["to"].as_u64().unwrap(), true) {
